@@ -136,21 +136,6 @@ Fixpoint wfx (x : xt) : Prop :=
       (fix all (l : list (str * xt)) : Prop := match l with [] => True | q :: r => wfx (snd q) /\ all r end) ms
   end.
 
-(* the shapes whose description is lossy on the pinned tree (findings): a mandatory property that equals the default
-   of its property datatype is not exported (BLOBType maxbytes = 0, ScaledInteger scale = float_info.min); a
-   StringType with minchars > 0 and unlimited maxchars is rebuilt with maxchars = minchars *)
-Fixpoint lossless (x : xt) : Prop :=
-  match x with
-  | XScaled s _ _ _ _ _ _ => fne s dblmin = true
-  | XString a b _ _ => a = 0%Z \/ b <> UNL
-  | XBlob _ b => b <> 0%Z
-  | XArray e _ _ => lossless e
-  | XTuple es => (fix all (l : list xt) : Prop := match l with [] => True | e :: r => lossless e /\ all r end) es
-  | XStruct ms _ _ =>
-      (fix all (l : list (str * xt)) : Prop := match l with [] => True | q :: r => lossless (snd q) /\ all r end) ms
-  | _ => True
-  end.
-
 Lemma feq_eq (a b : f64) :
   match b with B754_finite _ _ _ _ => True | _ => False end -> feq a b = true -> a = b.
 Proof. destruct b; try contradiction. intros _. apply feq_finite_eq. Qed.
@@ -224,20 +209,19 @@ Qed.
 Lemma rebuild_bool fuel p : get_dt (S fuel) p (PDict [($"type", PStr $"bool")]) = Ok (Some XBool).
 Proof. start_get leaf_bool. reflexivity. Qed.
 
-Lemma rebuild_blob fuel p a b j : wfx (XBlob a b) -> lossless (XBlob a b) -> xt_export (XBlob a b) = Ok j ->
+Lemma rebuild_blob fuel p a b j : wfx (XBlob a b) -> xt_export (XBlob a b) = Ok j ->
   get_dt (S fuel) p j = Ok (Some (XBlob a b)).
 Proof.
-  intros (Ha & Hb & Hle) Hl E. cbn in Hl. cbn [xt_export] in E. injection E as <-.
-  destruct (Z.eqb_spec b 0) as [|_]; [contradiction|].
+  intros (Ha & Hb & Hle) E. cbn [xt_export] in E. injection E as <-.
   destruct (Z.eqb_spec a 0) as [->|_]; cbn [negb ent app]; start_get leaf_blob; unfold mk_blob, none_or; cbv beta iota;
     rewrite Ha, Hb; cbn [as_z bind]; rewrite Hle; reflexivity.
 Qed.
 
-Lemma rebuild_string fuel p a b u t j : wfx (XString a b u t) -> lossless (XString a b u t) ->
+Lemma rebuild_string fuel p a b u t j : wfx (XString a b u t) ->
   xt_export (XString a b u t) = Ok j -> get_dt (S fuel) p j = Ok (Some (XString a b u false)).
 Proof.
-  intros (Ha & Hb & Hle & _) Hl E. cbn in Hl. cbn [xt_export] in E. injection E as <-.
-  destruct (Z.eqb_spec b UNL) as [->|Hb']; destruct (Z.eqb_spec a 0) as [->|Ha']; try (destruct Hl; contradiction);
+  intros (Ha & Hb & Hle & _) E. cbn [xt_export] in E. injection E as <-.
+  destruct (Z.eqb_spec b UNL) as [->|Hb']; destruct (Z.eqb_spec a 0) as [->|Ha'];
     destruct u; cbn [negb ent app]; start_get leaf_string; unfold mk_string, none_or; cbv beta iota;
     cbn [py_truthy Z.eqb negb]; rewrite ?Ha, ?Hb; cbn [as_z as_b bind bool_call]; rewrite ?Ha, ?Hb; cbn [as_z as_b bind bool_call];
     rewrite Hle; reflexivity.
@@ -305,7 +289,7 @@ Definition get_members (fuel : nat) (p : str) : list (str * pyval) -> res (list 
     end.
 
 Definition rebuilds (p : str) (x : xt) : Prop :=
-  wfx x -> lossless x -> scaled_free x -> forall j, xt_export x = Ok j ->
+  wfx x -> scaled_free x -> forall j, xt_export x = Ok j ->
   forall fuel, depth x <= fuel -> get_dt fuel p j = Ok (Some (norm p x)).
 
 Ltac ev_lookup2 :=
@@ -319,28 +303,28 @@ Ltac ev_lookup2 :=
 Ltac start_get2 L := cbn [get_dt]; ev_lookup2; cbn [bind negb]; rewrite L; ev_lookup2; cbv beta iota; unfold some_xt.
 
 Lemma get_list_ok p f : forall es js,
-  Forall (rebuilds p) es -> Forall wfx es -> Forall lossless es -> Forall scaled_free es ->
+  Forall (rebuilds p) es -> Forall wfx es -> Forall scaled_free es ->
   Forall (fun e => depth e <= f) es -> export_list es = Ok js -> get_list f p js = Ok (map (norm p) es).
 Proof.
-  induction es as [|e es IH]; intros js HR HW HL HS HD E.
+  induction es as [|e es IH]; intros js HR HW HS HD E.
   - cbn in E. injection E as <-. reflexivity.
-  - inversion HR; inversion HW; inversion HL; inversion HS; inversion HD; subst.
+  - inversion HR; inversion HW; inversion HS; inversion HD; subst.
     cbn [export_list] in E. apply bind_ok in E as (j & Ej & E). apply bind_ok in E as (js' & Ejs & E). injection E as <-.
-    cbn [get_list]. rewrite (H1 H5 H9 H13 j Ej f H17). cbn [bind need_xt].
-    fold (get_list f p). rewrite (IH js' H2 H6 H10 H14 H18 Ejs). reflexivity.
+    cbn [get_list]. rewrite (H1 H5 H9 j Ej f H13). cbn [bind need_xt].
+    fold (get_list f p). rewrite (IH js' H2 H6 H10 H14 Ejs). reflexivity.
 Qed.
 
 Lemma get_members_ok p f : forall ms js,
-  Forall (fun q => rebuilds p (snd q)) ms -> Forall (fun q => wfx (snd q)) ms -> Forall (fun q => lossless (snd q)) ms ->
+  Forall (fun q => rebuilds p (snd q)) ms -> Forall (fun q => wfx (snd q)) ms ->
   Forall (fun q => scaled_free (snd q)) ms -> Forall (fun q => depth (snd q) <= f) ms ->
   export_members ms = Ok js -> get_members f p js = Ok (map (fun q => (fst q, norm p (snd q))) ms).
 Proof.
-  induction ms as [|[n e] ms IH]; intros js HR HW HL HS HD E.
+  induction ms as [|[n e] ms IH]; intros js HR HW HS HD E.
   - cbn in E. injection E as <-. reflexivity.
-  - inversion HR; inversion HW; inversion HL; inversion HS; inversion HD; subst. cbn [snd fst] in *.
+  - inversion HR; inversion HW; inversion HS; inversion HD; subst. cbn [snd fst] in *.
     cbn [export_members] in E. apply bind_ok in E as (j & Ej & E). apply bind_ok in E as (js' & Ejs & E). injection E as <-.
-    cbn [get_members]. rewrite (H1 H5 H9 H13 j Ej f H17). cbn [bind need_xt].
-    fold (get_members f p). rewrite (IH js' H2 H6 H10 H14 H18 Ejs). reflexivity.
+    cbn [get_members]. rewrite (H1 H5 H9 j Ej f H13). cbn [bind need_xt].
+    fold (get_members f p). rewrite (IH js' H2 H6 H10 H14 Ejs). reflexivity.
 Qed.
 
 Lemma all_Forall {A} (P : A -> Prop) (l : list A) :
